@@ -36,6 +36,8 @@ def run(ck):
     ck.rule("C14.R9", "numbers the JSON visitors do not handle themselves (128-bit) reach record_debug with every digit: Visit's provided methods pass the value on unchanged (as C10.R4)", floor=8)
     ck.rule("C14.R10", "a value is rendered the same way whether it is an event field or a span field: the event-side visitors (tracing-serde) override no record_* method that the span-side JsonVisitor leaves to Visit's provided default", floor=2)
     ck.rule("C14.R11", "a span's stored JSON fields are its own: a recycled registry slot never carries the previous span's extensions over (Clear empties them on every path, as C05.R1)", floor=1)
+    ck.rule("C14.R13", "an event's fields become an object with unique keys: the event-side visitor, like the span-side one, collects by key before it serialises "
+            "(the macros accept the same field name twice, and both values reach the formatter)", floor=1)
     ck.rule("C14.R12", "what a layer stored for a span is what it reads back: the per-span type map files, finds and removes a value under the "
             "TypeId of that value's own type, through every wrapper", floor=9)
     ck.rule("C14.R8", "every span field the JSON visitor is handed is stored (as C13.R10)", floor=4)
@@ -59,6 +61,30 @@ def run(ck):
     from rules import C05 as _C05
     _C05.clear_resets_slot(ck, F, "C14.R11")
     extensions_typemap(ck, F, "C14.R12")
+    event_keys_unique(ck, F)
+
+
+def event_keys_unique(ck, F, rid="C14.R13"):
+    """Sibling disagreement: span fields go through JsonVisitor, which owns a map (a repeated name keeps one value); event
+    fields go through tracing-serde's SerdeMapVisitor, which writes each visited value straight into the serializer."""
+    adt = F.adts.get("tracing_serde::SerdeMapVisitor")
+    if not ck.anchor(rid, "tracing_serde::SerdeMapVisitor", adt):
+        return
+    fields = adt["variants"][0]["fields"]
+    has_set = any(any(k in f["ty"] for k in ("Map<", "Set<", "Vec<")) for f in fields)
+    direct = []
+    for i in F.impls:
+        if i.get("trait") == "tracing_core::field::Visit" and "SerdeMapVisitor" in i["self_ty"]:
+            for m, pth in i["methods"].items():
+                b = F.body(pth)
+                if b is not None and any(t["callee"].get("method") == "serialize_entry" for bb, t in b.calls()):
+                    direct.append(m)
+    key = "SerdeMapVisitor writes each key once"
+    if direct and not has_set:
+        ck.bad(rid, key, adt["span"], "%d record_* methods call serialize_entry for every visited value and the visitor keeps no record of the keys it has written (fields: %s): "
+               "`info!(attempt = 1, attempt = 2)` yields an object with the key `attempt` twice" % (len(direct), [f["name"] for f in fields]))
+    else:
+        ck.ok(rid, key, detail=[f["name"] for f in fields])
 
 
 def extensions_typemap(ck, F, rid):
